@@ -6,6 +6,7 @@
 (*   PuNonNull  every row of the result on D carries a unit and a weight   *)
 (*   Locality   for every unit u, the rows of the result on D attributed   *)
 (*              to u are, as a bag, the result on D restricted to u        *)
+(*   MatchedLocality  the same on the rows that have no NULL cell          *)
 (***************************************************************************)
 EXTENDS Integers, Sequences, FiniteSets, TLC, Json, IOUtils, SequencesExt
 
@@ -14,6 +15,7 @@ Rec == ndJsonDeserialize(IOEnv.TRACE)
 Occ(s, x) == Cardinality({ i \in 1..Len(s) : s[i] = x })
 BagEq(a, b) == Len(a) = Len(b) /\ \A i \in 1..Len(a) : Occ(a, a[i]) = Occ(b, a[i])
 IsNull(v) == v[1] = 0
+NoNull(row) == \A j \in 1..Len(row) : ~IsNull(row[j])
 Norm(v) == IF v[1] \in {1, 2} THEN <<1, v[2]>> ELSE <<v[1], v[2]>>
 NormRows(rs) == [i \in 1..Len(rs) |-> [j \in 1..Len(rs[i]) |-> Norm(rs[i][j])]]
 
@@ -25,6 +27,12 @@ Failures(r) ==
     \cup (IF \E k \in 1..Len(r.units) :
               ~BagEq(NormRows(SelectSeq(r.full, LAMBDA row : Norm(row[r.pu]) = Norm(r.units[k].pu))), NormRows(r.units[k].rows))
           THEN {"Locality"} ELSE {})
+    \* the same on the rows without any NULL cell (in a join: matched pairs; a null-padded row of an outer join always has one):
+    \* the recorded defect of the outer joins concerns the padded rows only, this judge keeps watching the matched ones
+    \cup (IF \E k \in 1..Len(r.units) :
+              ~BagEq(NormRows(SelectSeq(r.full, LAMBDA row : NoNull(row) /\ Norm(row[r.pu]) = Norm(r.units[k].pu))),
+                     NormRows(SelectSeq(r.units[k].rows, NoNull)))
+          THEN {"MatchedLocality"} ELSE {})
 
 Init == l = 1 /\ bad = 0
 Step == /\ l <= Len(Rec)
